@@ -127,6 +127,18 @@ def hyperv_file(chk: Check):
                     if hit:
                         table.setdefault((c["a"], int(c["t"])), set()).add(cname)
                 cls_of[cname] = t
+    # an unallocated slot is skipped, it does not end the walk: tables behind a hole are still loaded
+    stops = []
+    for n in ast.walk(inner):
+        if isinstance(n, (ast.Break, ast.Return)):
+            cs = conds_sym(chk, init, n)
+            if any(S.contains(c, lambda x: x == alloc) for c, _p in cs):
+                tab_ = reach_table(cs, {"a": alloc}, [{"a": 0}, {"a": 1}])
+                if tab_[0]:
+                    stops.append(n)
+    chk.decide(not stops, "K-PATH", "unallocated-entry-does-not-end-the-walk", stops[0] if stops else inner,
+               "an unallocated object-table slot is skipped and the walk goes on" if not stops else
+               "the walk over an object table stops at the first unallocated slot: key tables, file objects and further object tables listed behind a hole are never loaded")
     want = {(1, 1): {"HyperVStorageObjectTable"}, (1, 2): {"HyperVStorageKeyTable"}, (1, 3): {"HyperVStorageFileObject"}, (1, 6): {"HyperVStorageReplayLog"}}
     chk.decide(table == want, "K-DISPATCH", "object-entry-dispatch", inner,
                "unallocated entries are skipped; type 1 -> object table, 2 -> key table, 3 -> file object, 6 -> replay log, others ignored",
@@ -291,6 +303,18 @@ def entry(chk: Check):
     dctx = chk.func(REL, "HyperVStorageKeyTableEntry.data")
     douts = func_outcomes(chk, dctx)
     isf = R.self_attr(ek, "is_file_object_pointer")
+    # the pointer flag is bit 0 of the flags byte, whatever other flag bits are set
+    flags_t = R.self_attr(ek, "flags")
+    badf = []
+    for fv in range(0, 256):
+        try:
+            got = bool(S.ev(isf, S.Valuation(1, override={flags_t: fv})))
+        except S.EvalError:
+            got = None
+        if got != bool(fv & 1):
+            badf.append(f"flags {fv:#04x}: {got}, specified {bool(fv & 1)}")
+    chk.decide(not badf, "K-FORMULA", "file-object-pointer-flag", chk.func(REL, "HyperVStorageKeyTableEntry.is_file_object_pointer").func,
+               "is_file_object_pointer = bit 0 of the flags (evaluated for all 256 flag bytes)" if not badf else "; ".join(badf[:3]))
     inline = [o for o in douts if o[0] == "return" and any(c == isf and not p for c, p in o[2])] or [o for o in douts if o[0] == "return"][-1:]
     oki = bool(inline) and inline[-1][3][0] == "sub" and inline[-1][3][1] == raw and inline[-1][3][2] == ("slice", doff, S.C(None))
     chk.decide(oki, "K-FORMULA", "entry-data-inline", dctx.func, "inline data = raw[data_offset:]", found=S.show(inline[-1][3])[-120:] if inline else "none")
